@@ -325,6 +325,11 @@ func (q *TaskQueue) addAfter(id string, newTask task.Task) {
 		}
 	}
 
+	// Do not leave an empty slot in the queue if there is no task with the specified id.
+	if !idFound {
+		return
+	}
+
 	q.items = newItems
 }
 
@@ -357,6 +362,11 @@ func (q *TaskQueue) addBefore(id string, newTask task.Task) {
 			// when id is found, copy other taskы to i+1 position
 			newItems[i+1] = t
 		}
+	}
+
+	// Do not leave an empty slot in the queue if there is no task with the specified id.
+	if !idFound {
+		return
 	}
 
 	q.items = newItems
